@@ -137,9 +137,28 @@ def build_events(desc, shift=0, session_order=None, queue=None, late=False, evs=
     if late:  # the caller fills the queue only after the simulator has been constructed on it
         return (queue if queue is not None else EventQueue()), evs, events
     if queue is not None:  # an existing (e.g. drained) queue object is refilled and used again
-        queue.add_events(events)
+        queue.add_events(events_as(events, desc.get("events_as")))
         return queue, evs
-    return EventQueue(events), evs
+    return EventQueue(events_as(events, desc.get("events_as"))), evs
+
+
+def events_as(events, form):
+    """The batch of events in the container the caller happens to have: a list, a tuple, a deque, the values view of a dict, or
+    a one-shot iterable (generator, iterator, map)."""
+    import collections
+    if not form or form == "list":
+        return events
+    if form == "tuple":
+        return tuple(events)
+    if form == "deque":
+        return collections.deque(events)
+    if form == "dict_values":
+        return {i: e for i, e in enumerate(events)}.values()
+    if form == "generator":
+        return (e for e in events)
+    if form == "iter":
+        return iter(events)
+    return map(lambda e: e, events)
 
 
 def start_of(desc):
@@ -316,7 +335,7 @@ def build_sim(desc, scheduler=None, network=None, shift=0, order=None, cons_orde
     if pending_events is not None:
         # the simulator was built on an empty queue; the very queue object it was given is filled now
         half = len(pending_events) // 2
-        q.add_events(pending_events[:half])
+        q.add_events(events_as(pending_events[:half], desc.get("events_as")))
         for e_ in pending_events[half:]:
             q.add_event(e_)
     return sim, evs
